@@ -6,8 +6,13 @@ RQ = {'test': 'TestVerifRQ', 'comp': 'rq', 'quick': {'VERIF_N': 150, 'VERIF_OPS'
       'thorough': {'VERIF_N': 1500, 'VERIF_OPS': 300}, 'seeds': {'quick': 1, 'thorough': 8}}
 GENF = {'test': 'TestVerifGenFuncs', 'comp': 'gen', 'quick': {'VERIF_N': 1500},
         'thorough': {'VERIF_N': 200000, 'VERIF_SNA16_ALL': 1}, 'seeds': {'quick': 1, 'thorough': 2}}
+RTO = {'test': 'TestVerifRto', 'comp': 'rto', 'quick': {'VERIF_N': 120, 'VERIF_OPS': 60},
+       'thorough': {'VERIF_N': 3000, 'VERIF_OPS': 80}, 'seeds': {'quick': 1, 'thorough': 4}, 'corpus_glob': 'rto_*.ops'}
+TIMER = {'test': 'TestVerifTimer', 'comp': 'timer', 'quick': {'VERIF_N': 200, 'VERIF_OPS': 24},
+         'thorough': {'VERIF_N': 4000, 'VERIF_OPS': 40}, 'seeds': {'quick': 1, 'thorough': 4}, 'corpus_glob': 'timer_*.ops'}
 
 PROPS = {
     'C05': {'jobs': [RQ], 'assumptions': []},
     'C16': {'jobs': [GENF, RQ], 'assumptions': []},
+    'C19': {'jobs': [RTO, TIMER], 'assumptions': []},
 }
